@@ -7,7 +7,7 @@ degenerate 0xn / nx0 (which the vector-of-vector classes cannot represent: they 
 integer-valued entries (small range, so that ties and exact arithmetic occur; compared exactly with
 the textbook definition evaluated in Rat) and real entries (compared bit-exactly with the Float
 instantiation of the model and with the definition within the running error bound).  About one
-operation in eight is non-conformable.  `lap`: cost matrices up to 7x7, integer (narrow ranges:
+operation in eight is non-conformable.  `lap`: cost matrices up to 7x7 (a few up to 14x14), integer (narrow ranges:
 many ties) and real; thorough also enumerates all 0..2 matrices up to 3x3.
 """
 import random, struct, itertools
@@ -434,7 +434,8 @@ def coverage_extra(cases, answers):
                     im = [min(range(n), key=lambda i: (vals[i * n + j], i)) for j in range(n)]
                     if len(set(im)) == n:
                         lap_transcribed += 1
-    return {"lap_inputs_in_transcribed_domain": lap_transcribed, "first_operand_shapes": dict(sorted(shapes.items())), "storage_triples_used": len(kinds),
+    lap_compared = sum(1 for c, a in zip(cases, answers) for l, r in zip(c[1:], a or []) if l.startswith("lap ") and r.startswith("cost "))
+    return {"lap_answers_compared_bit_for_bit": lap_compared, "lap_inputs_without_free_row_after_column_reduction": lap_transcribed, "first_operand_shapes": dict(sorted(shapes.items())), "storage_triples_used": len(kinds),
             "storage_triples": dict(sorted(kinds.items())), "lap_sizes": dict(sorted(lapn.items())),
             "dimension_errors_raised": nonconf, "aborted_on_contract_violation": crashed,
             "integer_cases": integer_cases, "real_cases": real_cases}
